@@ -45,8 +45,10 @@ fn stored_property_block(&mut self, w: &mut WriteSink, rs: &RustStruct, f: &Rust
     let ghost w0 = w@;
 ''', '''
     proof {
-        let pre = wfmt_stored_property_block_0_p0();
-        let post = wfmt_stored_property_block_0_p3() + "\\n"@;
+        let pre = wfmt_stored_property_block_1_p0();
+        let post = wfmt_stored_property_block_1_p3() + "\\n"@;
+        // the override case: the override, with the `?` of an Option<T> field (literal of the format! site)
+        fmt_stored_property_block_0_p0_chars(); fmt_stored_property_block_0_p1_chars(); reveal_strlit("?");
         assert(wit3(pre, case_type@, post));
         assert(w@ =~= w0 + pre + member(Lang::Swift, undash(swift_escape(f.id.renamed@)), case_type@, *f) + post);
     }
